@@ -151,8 +151,9 @@ pub fn create_dir_all<P: AsRef<Path>>(path: P) -> Result<()> {
 
         // Create from root down
         for dir in to_create.into_iter().rev() {
-            // Skip if it already exists (as file or dir)
-            if ctx.fs.dir_exists(&dir) || ctx.fs.file_exists(&dir) {
+            // Skip if it already exists as a directory; an existing file at
+            // this path makes mkdir below fail with "File exists".
+            if ctx.fs.dir_exists(&dir) {
                 continue;
             }
             ctx.fs.mkdir(&dir, ctx.now).map_err(Error::other)?;
@@ -1585,7 +1586,7 @@ fn create_dir_all_with_mode<P: AsRef<Path>>(path: P, mode: u32) -> Result<()> {
 
         // Create from root down
         for dir in to_create.into_iter().rev() {
-            if ctx.fs.dir_exists(&dir) || ctx.fs.file_exists(&dir) {
+            if ctx.fs.dir_exists(&dir) {
                 continue;
             }
             ctx.fs
